@@ -212,4 +212,19 @@ example : (createTwice goJson toyE toyV cfgAB cfgPlus false holderE).failed = fa
     (createTwice goJson toyE toyV cfgAB cfgPlus false holderE).props.map (·.st.bound) = [some (.int 6)] := by decide +kernel
 example : (findEl cDollar (ofString "#{${a} ${op} ${b}}")).isSome = true := by decide
 
+-- quote characters are ordinary bytes of a tag: an apostrophe (an unbalanced quote) in the text behind an expression or in
+-- a placeholder's default does not hide the `validate` argument behind it — the value part ends at the first top-level
+-- comma, the field receives the expression's result and the text, and validation judges it
+def toyQ : FVal → List Bytes → Bool := fun v cs =>
+  match v with
+  | .str s => cs.all (fun c => if c = ofString "startswith=9" then s.head? = some 57 else if c = ofString "max=8" then decide (s.length ≤ 8) else true)
+  | _ => true
+example : Tag.parse? (ofString "#{${a} ${op} ${b}} o'clock,validate=startswith=9") =
+    some (ofString "#{${a} ${op} ${b}} o'clock", [(ofString "Validate", [ofString "startswith=9"])]) := by decide +kernel
+example : valuePipeline goJson toyE toyQ cfgAB (ofString "#{${a} ${op} ${b}} o'clock,validate=startswith=9") .string = .error .validate := by decide +kernel
+example : valuePipeline goJson toyE toyQ cfgAB (ofString "#{${a} ${op} ${b}} o'clock,validate=startswith=6") .string = .ok (.str (ofString "6 o'clock")) := by decide +kernel
+example : valuePipeline goJson toyE toyQ cfgAB (ofString "${motd:don't panic},validate=max=8") .string = .error .validate := by decide +kernel
+example : valuePipeline goJson toyE toyQ cfgAB (ofString "${motd:don't},validate=max=8") .string = .ok (.str (ofString "don't")) := by decide +kernel
+example : valuePipeline goJson toyE toyQ cfgAB (ofString "5\" pipe,validate=max=8") .string = .ok (.str (ofString "5\" pipe")) := by decide +kernel
+
 end Ioc.C18
